@@ -91,6 +91,8 @@ type ProcOpts struct {
 
 // Proc is one logical process: its own redis client (hence its own WATCH state) and everything built on it.
 type Proc struct {
+	// Ctx, when set, is the context the harness passes to the repositories (sched.WithID tags the caller)
+	Ctx        context.Context
 	W          *World
 	Client     *redis.Client
 	Logger     *zerolog.Logger
@@ -109,6 +111,14 @@ type Proc struct {
 	Router     *gin.Engine
 	SvrCleaner servercleaner.ServerCleaner
 	InsCleaner instancecleaner.InstanceCleaner
+}
+
+// Context: the context for calls made on behalf of this logical process
+func (p *Proc) Context() context.Context {
+	if p.Ctx != nil {
+		return p.Ctx
+	}
+	return context.Background()
 }
 
 func New(opts Options) *World {
